@@ -27,7 +27,8 @@ MAX_PER_SIG = 3          # violations kept per (rule, ctx) and direction
 FIELDS = ("ty", "cid", "ts", "td", "wnd", "seq", "ack")
 
 REQUIRED = ["C11.NoPanic", "C11.ParseAgrees", "C11.MessageAgrees", "C11.UnknownSkipped",
-            "C11.SerializeAgrees", "C11.RoundTrip",
+            "C11.SerializeAgrees", "C11.RoundTrip", "C11.RoundTrip.sack-len", "C11.RoundTrip.both-ext",
+            "C11.SerializeAgrees.both-ext",
             "C11.n.accepted", "C11.n.rejected", "C11.n.message-accepted", "C11.n.serialised"]
 
 
@@ -124,7 +125,7 @@ def judge(case, ans):
             ok = rs["sok"] and rs["ok2"] and rs["h2"]["hlen"] == len(rs["b"]) and _same_header(rs["h2"], h) \
                 and (rs["eq"] or h["sl"] != rs["h2"]["sl"])
             out.append(("C11.RoundTrip", _ext_ctx(h), True, bool(ok)))
-            if rs["sok"] and rs["ok2"] and h["hs"] and not h["hc"] and rs["h2"]["hs"]:
+            if rs["sok"] and rs["ok2"] and h["hs"] and rs["h2"]["hs"]:
                 out.append(("C11.RoundTrip", "sack-len", True, h["sl"] == rs["h2"]["sl"]))
         out.append(("C11.n.accepted", "", e["hok"], True))
         out.append(("C11.n.rejected", "", not e["hok"], True))
@@ -134,8 +135,11 @@ def judge(case, ans):
         ctx = _ext_ctx(a)
         out.append(("C11.NoPanic", "", True, not ans["p"]))
         out.append(("C11.SerializeAgrees", ctx, True, bool(ans["sok"] and ans["b"] in case["bs"])))
-        ok = ans["sok"] and ans["ok2"] and ans["eq"] and ans["h2"]["hlen"] == len(ans["b"]) and _same_header(ans["h2"], a)
+        ok = ans["sok"] and ans["ok2"] and ans["h2"]["hlen"] == len(ans["b"]) and _same_header(ans["h2"], a) \
+            and (ans["eq"] or a["sl"] != ans["h2"]["sl"])
         out.append(("C11.RoundTrip", ctx, True, bool(ok)))
+        if ans["sok"] and ans["ok2"] and a["hs"] and ans["h2"]["hs"]:
+            out.append(("C11.RoundTrip", "sack-len", True, a["sl"] == ans["h2"]["sl"]))
         out.append(("C11.n.serialised", "", True, True))
     return out
 
